@@ -42,6 +42,9 @@ def configs(quick):
     for mode in ("fusion", "mix_half", "mix_one"):
         out.append((2, 3, (1, 2, 20), 4, mode, "PosDists", "{0, 1}"))
         out.append((2, 2, (3,), 5, mode, "PosDists", "{0, 1}"))
+    # long "gap" histories (a prefix pruned, later re-created, must merge with a surviving longer relative): the
+    # recursion only -- its agreement with the sum over all alignments is established on the configs above
+    out.append((2, 5, (3,) if quick else (2, 3, 4), 20, "none", "PeakyDists", "{0}", "deep"))
     if not quick:
         # T = 4: the all-alignments oracle enumerates 3^4 alignments per prefix and state
         out.append((2, 4, (1, 2, 3, 60), 4, "none", "PosDists", "{0}"))
@@ -59,12 +62,14 @@ def run_tlc(ctx):
     sem = threading.Semaphore(3)
 
     def job(i, c):
-        V, T, Ws, D, mode, dists, lmv = c
+        V, T, Ws, D, mode, dists, lmv = c[:7]
+        deep = len(c) > 7
         with sem:
             try:
                 path = os.path.join(ctx.workdir, "ctc_%d.cfg" % i)
                 tlc.write_cfg(path, constants=dict(V=V, T=T, Ws="{%s}" % ", ".join(map(str, Ws)), D=D, Mode='"%s"' % mode, Dists=("<-", dists), LMVars=lmv),
-                              invariants=["NoPruneIsExact", "NeverMore", "Shape", "Positive", "MassConserved", "Export", "ExportStep"])
+                              invariants=(["Shape", "Positive", "Export"] if deep else
+                                          ["NoPruneIsExact", "NeverMore", "Shape", "Positive", "MassConserved", "Export", "ExportStep"]))
                 results[i] = tlc.run(MOD, path, workers=8, timeout=3000, coverage=(T <= 2 and mode == "none"))
             except Exception as ex:
                 errs.append(ex)
@@ -83,7 +88,7 @@ def run_tlc(ctx):
         if c[1] > 0 and res.coverage:
             tlc.require_covered(res, ["Frame"], name)
         ctx.add_tlc(name, res)
-        V, T, _, D, mode, _, _ = c
+        V, T, _, D, mode = c[0], c[1], c[2], c[3], c[4]
         for r in res.records:
             if r.get("kind") == "step":
                 skey = (V, D, mode, r["W"], r["lmv"], r["t"], tuple(r["p"]), tuple(sorted((tuple(e["y"]), e["nb"], e["b"]) for e in r["prev"])))
